@@ -156,12 +156,27 @@ func mashDrive(args []string) error {
 		}
 		hseed := int(mash.Seed % 1000000)
 
+		withN := sid%3 == 1 // a third of the sessions have unknown bases (N is its own complement)
 		randSeq := func(n int) []byte {
 			b := make([]byte, n)
 			for i := range b {
 				b[i] = "ACGT"[r.Intn(4)]
+				if withN && r.Intn(9) == 0 {
+					b[i] = 'N'
+				}
 			}
 			return b
+		}
+		// letterCase: per-letter case patterns (a case rule that looks at which letters are lower case shows here)
+		letterCase := func(s []byte) []byte {
+			out := bytes.ToUpper(s)
+			lower := []string{"n", "acgt", "a", "nt", "acgtn", "g"}[r.Intn(6)]
+			for i, c := range out {
+				if bytes.IndexByte([]byte(lower), c+32) >= 0 {
+					out[i] = c + 32
+				}
+			}
+			return out
 		}
 		flipCase := func(s []byte, p int) []byte { // p = percentage of letters whose case is flipped
 			out := append([]byte{}, s...)
@@ -241,8 +256,14 @@ func mashDrive(args []string) error {
 					note += "revcomp-subset "
 				}
 				if v == 1 || r.Intn(2) == 0 {
-					for i := range vs {
-						vs[i] = flipCase(vs[i], []int{10, 50, 100}[r.Intn(3)])
+					if r.Intn(3) == 0 {
+						for i := range vs {
+							vs[i] = letterCase(vs[i])
+						}
+					} else {
+						for i := range vs {
+							vs[i] = flipCase(vs[i], []int{10, 50, 100}[r.Intn(3)])
+						}
 					}
 					note += "case "
 				}
